@@ -72,6 +72,16 @@ def run(ctx):
                     built_here = isinstance(recv, ast.Name) and recv.id in fresh
                     exc = RESET_EXCEPTIONS.get(fn.qualname)
                     ok = built_here or exc is not None
+                    # ... and the frame has not been given several rows per variable in between (extension to the minor grid)
+                    multi = [s2 for s2 in au.walk_stmts(fn.body) if s2.lineno < st.lineno and isinstance(s2, ast.Assign) and isinstance(recv, ast.Name)
+                             and any(isinstance(t0, ast.Name) and t0.id == recv.id for t0 in s2.targets) and isinstance(s2.value, ast.Call)
+                             and "extend_mapping_to_minor_grid" in (au.method_name(s2.value) or "")]
+                    if multi and ok:
+                        ctx.ob("C07.e", fn, au.short(n, 80), False,
+                               "%s was extended to the minor grid at line %s - one row per fine step, i.e. several rows per variable - before "
+                               "reset_index(drop=True) renumbers its rows: the labels no longer enumerate variables (rows point to variable no. "
+                               "146 of a problem with 9 variables)" % (au.short(recv, 40), multi[0].lineno), node=n)
+                        continue
                     ctx.ob("C07.e", fn, au.short(n, 80), ok,
                            "%s may carry several rows per variable (it was not built in this function); reset_index(drop=True) replaces the "
                            "labels by row numbers, so the index no longer enumerates variables: with a Transport in the portfolio the SLP "
